@@ -413,6 +413,9 @@ def vhist_check(name, case, rec):
     path = [1.0]
     for pk in case["peaks"]:
         path += [pk, 1.0]
+    if case["num"] % 2:
+        path = path[:-1]  # the path ends at its last peak (monotonic for one peak) instead of returning to the undeformed state
+        rec.label("path-ends-at-a-peak")
     lam = np.asarray(fem.math.linsteps(path, num=case["num"]), float)
     kw = {"ux": None, "ps": None, "bx": None}
     wanted = {"all": ["ux", "ps", "bx"], "ps+bx": ["ps", "bx"]}.get(case["case"], [case["case"]])
@@ -462,7 +465,63 @@ def vhist_compare(rec, case, base, lam, inc, which, got_l, got_P):
               {"peaks": case["peaks"]})
 
 
+# ---------------------------------------------------------------------------------------------------------------
+# uniaxial load case of a body whose symmetry faces are NOT at the origin: symmetry(x=, y=, z=) called directly
+# ---------------------------------------------------------------------------------------------------------------
+def symc_strategy(name, tier):
+    return st.fixed_dictionaries({"origin": st.lists(fl(-3, 3, 2), min_size=3, max_size=3), "size": st.lists(fl(0.5, 2.5), min_size=3, max_size=3),
+                                  "n": st.lists(st.integers(2, 3), min_size=3, max_size=3), "jseed": st.integers(0, 2**16), "move": fl(-0.15, 0.3),
+                                  "mu": fl(0.5, 2), "bulkratio": fl(2, 10), "axis": st.integers(0, 2)})
+
+
+def symc_check(name, case, rec):
+    fem = import_felupe()
+    dim = 2 if name == "planestrain" else 3
+    a0 = np.array(case["origin"][:dim])
+    size = np.array(case["size"][:dim])
+    n = tuple(case["n"][:dim])
+    mesh = (fem.Rectangle if dim == 2 else fem.Cube)(a=tuple(a0), b=tuple(a0 + size), n=n)
+    X = np.array(mesh.points)
+    inner = ~np.any((np.abs(X - a0) < 1e-12) | (np.abs(X - a0 - size) < 1e-12), axis=1)
+    X[inner] += 0.1 * float(min(size / (np.array(n) - 1))) * np.random.default_rng(case["jseed"]).uniform(-1, 1, (int(inner.sum()), dim))
+    mesh.update(points=X)
+    region = (fem.RegionQuad if dim == 2 else fem.RegionHexahedron)(mesh)
+    fld = fem.FieldPlaneStrain(region, dim=2) if dim == 2 else fem.Field(region, dim=3)
+    fc = fem.FieldContainer([fld])
+    axis = case["axis"] % dim
+    um = fem.NeoHooke(mu=case["mu"], bulk=case["mu"] * case["bulkratio"])
+    kwc = dict(zip("xyz", [float(v) for v in a0]))
+    bounds = fem.dof.symmetry(fld, axes=(True,) * dim, **kwc)
+    skip = [1] * dim
+    skip[axis] = 0
+    move = case["move"] * float(size[axis])
+    bounds["move"] = fem.Boundary(fld, **{"f" + "xyz"[axis]: float(a0[axis] + size[axis])}, skip=tuple(skip), value=move)
+    rec.nontrivial = abs(case["move"]) >= 0.05 and float(np.abs(a0).max()) >= 0.25 and len({round(float(v), 2) for v in a0}) == dim
+    dof0, dof1 = fem.dof.partition(fc, bounds)
+    ext0 = fem.dof.apply(fc, bounds, dof0)
+    try:
+        res = fem.newtonrhapson(items=[fem.SolidBody(um, fc)], dof0=dof0, dof1=dof1, ext0=ext0, tol=1e-11)
+    except ValueError:
+        rec.require("symmetric-block-is-solvable", False, {"origin": case["origin"]})
+        return
+    l1 = 1 + case["move"]
+    lam = try_solve(um, "uniaxial" if dim == 3 else "planestrain-uniaxial", l1)
+    if lam is None:
+        rec.reject("no homogeneous solution")
+        return
+    # stretches: l1 along the loading axis, the transverse one(s) from the analytic solution
+    lt = lam[1]
+    stretch = np.full(dim, lt)
+    stretch[axis] = l1
+    uref = (stretch - 1.0)[None, :] * (X - a0[None, :])
+    sc = max(float(np.abs(uref).max()), 1e-3 * float(size.max()))
+    rec.close("displacement=affine-map-about-the-symmetry-planes", float(np.abs(np.asarray(res.x[0].values)[:, :dim] - uref).max()) / sc, 1e-7, {"origin": case["origin"]})
+    F = np.asarray(res.x.extract()[0])
+    rec.close("F-uniform", float(np.abs(F - F[..., :1, :1]).max()), 1e-7)
+
+
 FAMILIES = [
+    Family("symmetry-centres", ["3d", "planestrain"], symc_check, strategy=symc_strategy, n={"quick": 6, "thorough": 150}, chunk=6, weight=2),
     Family("view-history", ["ogden-roxburgh"], vhist_check, strategy=vhist_strategy, n={"quick": 16, "thorough": 300}, chunk=4),
     Family("patch", PATCH, patch_check, strategy=patch_strategy, n={"quick": 6, "thorough": 150}, chunk=6, weight=3),
     Family("loadcase", LOAD, load_check, strategy=load_strategy, n={"quick": 8, "thorough": 200}, chunk=4, weight=4),
